@@ -158,6 +158,18 @@ class Collector:
                 if size < v["size"]:
                     v.update(case=case, sig=sig or {}, detail=detail, size=size)
 
+    def load(self, d):
+        """take over the content of a collector that ran in a child process (fuzz parts)"""
+        self.evaluations += d["evaluations"]
+        self.nt.update(d["nt"])
+        self.nt_enum += d["nt_enum"]
+        self.classes.update(d["classes"])
+        self.samples.extend(d["samples"][: self.MAX_SAMPLES - len(self.samples)])
+        self.violations.update(d["violations"])
+        self.excluded_known.update(d["excluded_known"])
+        self.discards.update(d["discards"])
+        self.extra.update(d["extra"])
+
     def to_dict(self):
         return {
             "evaluations": self.evaluations, "nt": sorted(self.nt), "nt_enum": self.nt_enum,
@@ -423,6 +435,9 @@ def _run_check(prop, tier, seed):
     found = {}
     exhaustive = []
     ctx = mp.get_context("fork")
+    if any(getattr(p, "fuzz", False) for p in mod.PARTS):
+        from harness import fuzz
+        fuzz.ensure()
     for part in mod.PARTS:
         ns = part.shards or NSHARDS
         jobs = [(prop, part.name, tier, seed, k, ns) for k in range(ns)]
@@ -460,6 +475,9 @@ def _run_check(prop, tier, seed):
         if pe + pd > 0 and pd / (pe + pd) > part.max_discard:
             raise HarnessError(f"{prop}/{part.name}: generator discard rate {pd}/{pe + pd} "
                                f"exceeds {part.max_discard}: {dict(merged['discards'])}")
+        if pe == 0 and getattr(part, "fuzz", False) and merged["classes"].get(f"{part.name}:fuzz_unavailable"):
+            merged["parts"][part.name] = {"kind": "fuzz", "evaluations": 0, "unavailable": "atheris could not be imported or installed"}
+            continue
         if pe == 0:
             raise HarnessError(f"{prop}/{part.name}: no case evaluated")
         merged["evaluations"] += pe
@@ -468,7 +486,7 @@ def _run_check(prop, tier, seed):
         is_exh = bool(part.exhaustive(tier))
         exhaustive.append(is_exh)
         merged["parts"][part.name] = {
-            "kind": part.kind, "evaluations": pe, "distinct_nontrivial": len(pnt) + pnt_enum,
+            "kind": "fuzz" if getattr(part, "fuzz", False) else part.kind, "evaluations": pe, "distinct_nontrivial": len(pnt) + pnt_enum,
             "discarded": pd, "exhaustive": is_exh, "max_shard_wall_s": round(pwall, 2),
         }
 
